@@ -150,8 +150,7 @@ Lemma agg_ok_groups_model c gv :
 Proof.
   intros Hg Hwf. set (inp := c_input c). set (gs := groups_of gv inp).
   set (hh := fun ms => having_holds (c_having c) ms).
-  unfold wf in Hwf. rewrite Hg in Hwf. apply andb_true_iff in Hwf. destruct Hwf as [Hwf _].
-  apply andb_true_iff in Hwf. destruct Hwf as [Hnd0 Hhk].
+  unfold wf in Hwf. rewrite Hg in Hwf. apply andb_true_iff in Hwf. destruct Hwf as [Hnd0 Hhk].
   apply (nodupb_spec _ N_eqb_spec) in Hnd0.
   assert (Hhk' : match c_having c with Some (HKey v _ _) => In v gv | _ => True end).
   { destruct (c_having c) as [[| v ne iri]|]; auto. now apply (memb_In _ N_eqb_spec). }
